@@ -74,6 +74,14 @@ CLAIMED = {
    text="Each program (seeded, or an .egg file of the repository that needs no external facts) runs twice in one process and once in each of seven child processes under environment perturbations: default, affinity 16 CPUs and 2 CPUs (DashMap's default shard count depends on available parallelism) versus the worker's single CPU, ASLR off via setarch -R (hash seeds), 200 extra environment variables, cwd=/, 256 KiB less stack. Transcripts hold every command output verbatim and every run report without durations (sorted by rule name) and must be byte-identical.",
    note="The perturbation set is enumerated completely per program; programs are sampled. Read::tables() order and RunReport's Display ordering by measured time are outside the statement and not compared.",
    tech="deterministic simulation with environment fault injection across OS processes (affinity, ASLR, environment, cwd, stack), byte-level transcript comparison"),
+ "C11": dict(cat="translation_validation", ref="DESIGN §5 C11",
+   text="Seeded sessions accepted by program_supports_proofs (constructors, relations, merge functions, rules, rewrites, subsume, delete, globals, push/pop, extract, print-size), with rejected commands inserted at seeded positions, run command by command on the plain engine and on the term-encoded and proof-encoded engines: success/failure of every command and the snapshot_stable_under_proof_encoding text of its outputs (check outcomes, table sizes, extraction costs) must agree; then the encoded program returned by resolve_program is printed, re-parsed and run on a plain engine and must produce the same text.",
+   note="The plain engine is the reference model of the encoded ones. Open known findings (the encoding treats subsume/delete differently: sizes after subsuming an absent term, check on subsumed rows, extract after delete) are keyed by class plus a tag naming the features the history uses, so histories without subsume/delete are fully checked.",
+   tech="deterministic simulation of seeded sessions with injected rejected commands; translation validation of every command across plain / term-encoding / proofs / print-reparse"),
+ "C12": dict(cat="exploration", ref="DESIGN §5 C12",
+   text="Seeded supported programs run on EGraph::new_with_proofs() next to the plain engine; 6-14 true and false facts over the terms of the database are asked through (prove ..) on a clone: success iff (check ..) succeeds on the plain engine (when the history has no subsume), never a panic (prove checks its proof before and after simplification). Every returned proof is walked structurally through the public API and accepted by the checker against the unaltered program; then fault injection through hook H9: re-checked without a rule it uses, without the top-level facts, and after single-point alterations of the proof object (Trans operands swapped, Congr index moved, rule premise dropped, term substituted) it must be rejected.",
+   note="Alterations are applied only where they are certainly unjustified. One open known finding (prove_exists panics because the checker refuses a proof over a function row whose key was canonicalised) is keyed by its panic site.",
+   tech="deterministic simulation of seeded proof-mode histories + fault injection into checking program and proof object (hook H9)"),
 }
 NOT_YET = "check not built yet in this round; will be claimed once its check is silent on the unchanged tree and sensitive to seeded breakage"
 NA = {
